@@ -109,6 +109,7 @@ class guard:
     """watchdog for one virtual-time run: a run that spins or blocks (e.g. the datetime-clock spin branch of
     VirtualTimeScheduler.start re-acquiring its lock) is interrupted by SIGALRM and reported as raised 'HANG'"""
 
+    leaks = 0          # actions the code under test put on the real-time TimeoutScheduler during the current run
     hangs = 0          # after a few interrupted runs in one process the remaining ones are cut short (0.3 s) to bound the wall time
 
     def __init__(self, seconds=4.0):
@@ -118,6 +119,27 @@ class guard:
         import signal
         import threading
 
+        # a timed observable that is not given the subscribe-time scheduler falls back to TimeoutScheduler (threading.Timer,
+        # wall clock): replace its Timer by a stub that never fires and is counted, so that nothing real-time can leak into,
+        # slow down or outlive the virtual-time run
+        import reactivex.scheduler.timeoutscheduler as _ts
+
+        guard.leaks = 0
+
+        class _StubTimer:
+            daemon = True
+
+            def __init__(self, *a, **k):
+                pass
+
+            def start(self):
+                guard.leaks += 1
+
+            def cancel(self):
+                pass
+
+        self._ts, self._timer = _ts, _ts.Timer
+        _ts.Timer = _StubTimer
         self.on = threading.current_thread() is threading.main_thread()
         if self.on:
             def handler(signum, frame):
@@ -131,6 +153,7 @@ class guard:
     def __exit__(self, *exc):
         import signal
 
+        self._ts.Timer = self._timer
         if self.on:
             signal.setitimer(signal.ITIMER_REAL, 0)
             signal.signal(signal.SIGALRM, self.old)
@@ -176,6 +199,33 @@ def _run_test_once(case, build, sources, subs_at, no_sched=False):
     box = {}
     observers = [sched.create_observer() for _ in subs_at]
     disps = []
+    echo_at = set(case.get("echo") or [])
+    if echo_at:
+        # re-entrant feedback: when the consumer receives its k-th element (k in case["echo"], echoes themselves excepted) it
+        # pushes ("echo", k) into the (hot) source synchronously, from inside on_next
+        base = observers[0]
+        count = [0]
+
+        class Feedback:
+            messages = base.messages
+
+            def on_next(self, v):
+                k = count[0]
+                count[0] += 1
+                base.on_next(v)
+                if k in echo_at and not (isinstance(v, tuple) and v[:1] == ("echo",)):
+                    for o in srcs[0].observers[:]:
+                        o.on_next(("echo", k))
+
+            def on_error(self, e):
+                base.on_error(e)
+
+            def on_completed(self):
+                base.on_completed()
+
+        fb = Feedback()
+    else:
+        fb = None
 
     def do_create(s, st):
         box["o"] = build(sched, *srcs)
@@ -184,6 +234,8 @@ def _run_test_once(case, build, sources, subs_at, no_sched=False):
         def act(s, st):
             if no_sched:
                 disps.append(box["o"].subscribe(obs))
+            elif fb is not None and obs is observers[0]:
+                disps.append(box["o"].subscribe(fb.on_next, fb.on_error, fb.on_completed, scheduler=sched))
             else:
                 disps.append(box["o"].subscribe(obs, scheduler=sched))
         return act
@@ -205,7 +257,7 @@ def _run_test_once(case, build, sources, subs_at, no_sched=False):
         return {"raised": e.name}
     except Exception as e:  # noqa
         return {"raised": type(e).__name__}
-    return {"outs": [fw.messages_json(o.messages) for o in observers],
+    return {"outs": [fw.messages_json(o.messages) for o in observers], "leaks": guard.leaks,
             "subs": [fw.subs_json(s.subscriptions) if s is not None else None for s in srcs]}
 
 
@@ -219,6 +271,8 @@ def run_test(case, build, sources=("msgs",), no_sched=False):
     if "raised" in r:
         return r
     res = {"out": r["outs"][0], "subs": r["subs"]}
+    if r.get("leaks"):
+        res["leaks"] = r["leaks"]
     if t2 is not None:
         res["out2"] = r["outs"][1]
         solo = _run_test_once(case, build, sources, [t2], no_sched)
@@ -230,6 +284,14 @@ def out_of(io):
     if isinstance(io, dict) and "out2" in io:
         return {"out": io["out"], "out2": io["out2"]}
     return io["out"] if isinstance(io, dict) and "out" in io else io
+
+
+def leak_oracle(case, io):
+    """the subscribe-time scheduler must reach every inner subscription: nothing may be scheduled on the real-time default"""
+    if isinstance(io, dict) and io.get("leaks"):
+        return (f"{case['op']}: {io['leaks']} action(s) were scheduled on the real-time TimeoutScheduler instead of the scheduler "
+                f"given at subscribe time; output {io.get('out')}")
+    return None
 
 
 def second_sub_oracle(case, io):
@@ -387,8 +449,36 @@ def gen_inners(rng, d, inline=0.2):
     subscribe: {"inline": "B"} BehaviorSubject (element), "CS" already-completed Subject, "EI" empty() on ImmediateScheduler,
     "ES" already-failed Subject"""
     kinds = ["B", "B", "CS", "EI", "ES"] + (["RI", "RI"] if GEN_INLINE_BOTH else [])
-    return [({"inline": rng.choice(kinds)} if rng.random() < inline else gen_inner(rng, d))
-            for _ in range(rng.choice([1, 2, 3, 3]))]
+
+    def one():
+        r = rng.random()
+        if r < inline:
+            return {"inline": rng.choice(kinds)}
+        if r < inline + 0.2:
+            # reactivex.timer(d) WITHOUT a scheduler argument: must run on the scheduler given at subscribe time
+            return {"timer": rng.choice([0, 1, max(d - 1, 0), d, d, d + 1, 2 * d])}
+        return gen_inner(rng, d)
+
+    return [one() for _ in range(rng.choice([1, 2, 3, 3]))]
+
+
+def inner_timeline(tl):
+    """the signals of a scheduled (non-inline) mapper observable, relative to its subscription"""
+    if isinstance(tl, dict):
+        return [[tl["timer"], ["N", 0]], [tl["timer"], ["C"]]]
+    return conform(tl)
+
+
+def is_inline(tl):
+    return isinstance(tl, dict) and "inline" in tl
+
+
+def mapper_observable(sched, tl):
+    import reactivex
+
+    if isinstance(tl, dict) and "timer" in tl:
+        return reactivex.timer(tl["timer"])
+    return sched.create_cold_observable(recorded(tl)) if tl else reactivex.never()
 
 
 def inner_of(inners, k):
@@ -408,7 +498,7 @@ def make_mapper(sched, case, off=0):
         if case.get("raise_at") is not None and k == case["raise_at"]:
             raise InjectedError("mapErr")
         tl = inner_of(case["inners"], k + off)
-        if isinstance(tl, dict):
+        if is_inline(tl):
             from reactivex.scheduler import ImmediateScheduler
             from reactivex.subject import BehaviorSubject, Subject
 
@@ -425,7 +515,7 @@ def make_mapper(sched, case, off=0):
             else:
                 sj.on_error(InjectedError("inlineErr"))
             return sj
-        return sched.create_cold_observable(recorded(tl)) if tl else reactivex.never()
+        return mapper_observable(sched, tl)
 
     return mapper
 
@@ -453,8 +543,8 @@ def elem_streams(src_seen, inners, off=0):
     for t, n in src_seen:
         if n[0] == "N":
             tl = inner_of(inners, k + off)
-            if not isinstance(tl, dict):
-                out.append([[t + r, ("inner", k + off, m)] for r, m in conform(tl)])
+            if not is_inline(tl):
+                out.append([[t + r, ("inner", k + off, m)] for r, m in inner_timeline(tl)])
             k += 1
     return out
 
@@ -468,7 +558,7 @@ def src_stream(src_seen, inners, off=0):
         out.append([t, ("src", n)])
         if n[0] == "N":
             tl = inner_of(inners, k + off)
-            if isinstance(tl, dict):
+            if is_inline(tl):
                 out += [[t, ("inner", k + off, m)] for m in INLINE[tl["inline"]]]
             k += 1
     return out
